@@ -497,7 +497,7 @@ fn edit(m: &mut dr::Module, rng: &mut Rng) -> String {
 }
 
 pub fn run(cfg: &Cfg, rep: &mut Report) {
-    rep.rule = "directly constructed dr::Module values with unique marker instructions of varying word counts: all 2^13 present/absent combinations of the 13 optional/vector parts (sizes 1..3, functions with missing def/end/label, empty blocks), each checked: assemble() split by word counts vs construction order vs all_inst_iter / global_inst_iter / Function::all_inst_iter and the _mut twins (by element address); then random shapes; stage `realistic`: modules with realistic content (boundary-value modules, linkage declarations, line-debug info with repeated identical instructions, random well-formed modules) as the loader files them, structurally edited (parts removed, instructions and functions repeated or moved), checked without markers: traversals by element address against the module's own structure, assemble() against header ++ assembly of each visited instruction. distinct_nontrivial = distinct part combinations".into();
+    rep.rule = "directly constructed dr::Module values with unique marker instructions of varying word counts: all 2^13 present/absent combinations of the 13 optional/vector parts (sizes 1..3, functions with missing def/end/label, empty blocks), each checked: assemble() split by word counts vs construction order vs all_inst_iter / global_inst_iter / Function::all_inst_iter and the _mut twins (by element address); then random shapes; stage `realistic`: modules with realistic content (boundary-value modules, linkage declarations, line-debug info with repeated identical instructions, random well-formed modules) as the loader files them, structurally edited (parts removed, instructions and functions repeated or moved), checked without markers: traversals by element address against the module's own structure, assemble() against header ++ assembly of each visited instruction; stage `oversized`: marker modules holding one instruction of 65536..68535 words (OpSource, OpString, OpName, OpTypeStruct, OpSourceContinued) in a section or block, checked the same marker-free way. distinct_nontrivial = distinct part combinations".into();
     rep.exhaustive = true;
     run_stage(cfg, rep, "shapes", 1 << 13, |idx, rng, r| {
         let mut b = build(rng, idx as u32, 3);
